@@ -95,6 +95,27 @@ def guard_bound(cond, truth, S, b=None):
 
     def is_len(x):
         return (x[0] == 'len' and strip_ref(x[1]) == S) or min_len_of(b, x, S)
+    # the remaining length compared with a constant: (len - B) >= K.  Valid only where B <= len is already known (the subtraction
+    # wraps otherwise): returned as a conditional fact ('sub', K), applied like the != upgrade
+    for a_, c_, flip_ in ((l, r, False), (r, l, True)):
+        if a_[0] == 'bin' and a_[1] == 'Sub' and is_len(a_[2]) and not is_len(a_[3]) and c_[0] == 'c' and isinstance(c_[1], int):
+            op_ = {'Lt': 'Gt', 'Le': 'Ge', 'Gt': 'Lt', 'Ge': 'Le', 'Eq': 'Eq', 'Ne': 'Ne'}[op] if flip_ else op
+            K = c_[1]
+            need = None
+            if (op_ == 'Ge' and truth) or (op_ == 'Lt' and not truth):
+                need = K
+            elif (op_ == 'Gt' and truth) or (op_ == 'Le' and not truth):
+                need = K + 1
+            elif (op_ == 'Ne' and truth and K == 0) or (op_ == 'Eq' and not truth and K == 0):
+                need = 1
+            elif op_ == 'Eq' and truth:
+                need = K
+            if need is None:
+                return None
+            b1, k1 = split_index(a_[3])
+            if k1 != 0:
+                return None
+            return b1, ('sub', need)
     # normalise so that the length is on the right
     if is_len(l) and not is_len(r):
         flip = {'Lt': 'Gt', 'Le': 'Ge', 'Gt': 'Lt', 'Ge': 'Le', 'Eq': 'Eq', 'Ne': 'Ne'}
@@ -200,7 +221,10 @@ def available_guards(b, S):
                     fo = dict(OUT[p])
                     ge = gen_edges.get((p, bi))
                     if ge:
-                        if isinstance(ge[1], tuple):
+                        if isinstance(ge[1], tuple) and ge[1][0] == 'sub':
+                            if fo.get(ge[0], -1) >= 0:
+                                fo[ge[0]] = max(fo[ge[0]], ge[1][1])
+                        elif isinstance(ge[1], tuple):
                             kk = ge[1][1]
                             if fo.get(ge[0], -1) == kk:
                                 fo[ge[0]] = kk + 1
